@@ -248,7 +248,7 @@ func (w *world) take() []gram {
 // symbolic <-> concrete addresses shared by drivers and specifications.
 var symAddr = map[string]string{ //nolint:gochecknoglobals
 	"a1": "10.0.0.1:5000", "a2": "10.0.0.3:5000", "b1": "10.0.0.2:5000", "b2": "10.0.0.4:5000",
-	"n1": "10.9.9.1:6000", "x9": "10.6.6.6:666",
+	"n1": "10.9.9.1:6000", "n2": "10.9.9.2:6000", "x9": "10.6.6.6:666",
 }
 
 var addrSym = func() map[string]string { //nolint:gochecknoglobals
